@@ -69,6 +69,7 @@ struct World {
   uint64_t salt = 0;
   int behind = 0;  // what follows a file mapping: 0 inaccessible, 1 non-zero garbage page, 2 zero page
   long step_budget = 20000000;
+  long max_anon = 0;  // > 0: growth cap of one anonymous mapping in bytes (default: 4 MiB); only the giant programs of C08 raise it
   long sim_epoch = 1700000000;
   bool fd0_free = false;  // the caller closed stdin: the first descriptor the library opens is 0
   int fd_limit = 0;       // > 0: the process may hold at most this many descriptors of its own (RLIMIT_NOFILE); a process that
